@@ -16,7 +16,10 @@ static int in_group = 0, group_first = 1;
 static void one(const char *s, int len, const char *grp) {           /* len bytes, may not contain NUL */
   static char bigbuf[1 << 15]; char small[400]; char *buf = len < 399 ? small : bigbuf; memcpy(buf, s, len); buf[len] = 0;
   if (locid() != 1) setlocale(LC_ALL, "C.utf8");          /* every parse starts from the non-C locale, all categories */
+  /* every other parse runs with a per-thread locale installed by the caller (uselocale): it must still be installed afterwards */
+  static locale_t mine; static unsigned tick; int use = (tick++ & 1); if (use) { if (!mine) mine = newlocale(LC_ALL_MASK, "C.utf8", (locale_t)0); if (mine) uselocale(mine); else use = 0; }
   int l0 = locid(); xrl_error *e = NULL; struct compoundData *c = CompoundParser(buf, &e); int l1 = locid();
+  if (use) { if (uselocale((locale_t)0) != mine) l1 = 4; uselocale(LC_GLOBAL_LOCALE); }
   if (in_group && !group_first) fputc(',', OUT);
   group_first = 0;
   fprintf(OUT, "{\"k\":\"parse\",\"g\":\"%s\",\"b\":[", grp); for (int i = 0; i < len; i++) fprintf(OUT, "%s%d", i ? "," : "", (unsigned char)buf[i]);
@@ -94,7 +97,8 @@ int cmd_c07(int argc, char **argv) {
   } else if (!strcmp(argv[0], "extreme")) {
     /* well-formed formulas at the extremes of size: deep nesting (1 .. 120 levels, with and without multipliers), long flat formulas, long groups */
     static char big[1 << 15];
-    for (int d = 1; d <= 120; d += (d < 40 ? 1 : 9)) {
+    static const int DEEP[] = {129, 257, 300, 513, 1030, 0}; int nd0 = 0; for (int d = 1; d <= 120; d += (d < 40 ? 1 : 9)) nd0++;
+    for (int di = 0, d = 1; di < nd0 + 5; di++, d = di < nd0 ? d + (d < 40 ? 1 : 9) : DEEP[di - nd0]) {
       int o = 0; for (int i = 0; i < d; i++) big[o++] = '('; o += sprintf(big + o, "H2O"); for (int i = 0; i < d; i++) big[o++] = ')'; one(big, o, "deep");
       o = 0; o += sprintf(big + o, "Ca"); for (int i = 0; i < d; i++) { big[o++] = '('; big[o++] = 'P'; } o += sprintf(big + o, "O4"); for (int i = 0; i < d; i++) { big[o++] = ')'; if (i < 20) big[o++] = '2'; } o += sprintf(big + o, "F"); one(big, o, "deep");
     }
